@@ -205,6 +205,33 @@ def check_refused_updates(env, acc, grid):
             pass
 
 
+def check_default_source(env, acc):
+    """'Perfect settings reduce to the ideal source' also for the source a Sampler makes for itself - whatever was
+    done to the self-made source of ANOTHER Sampler before (edited in place, replaced)."""
+    c = lw.Circuit(2); c.bs(0)
+    st = lw.State([1, 1])
+    ideal = {(2, 0): 0.5, (0, 2): 0.5}
+    edits = [("brightness", 0.5), ("purity", 0.8), ("indistinguishability", 0.0), ("probability_threshold", 0.2)]
+    for k in range(0, 3):
+        for hist in itertools.permutations(edits, k):
+            case = {"scenario": "default_source_after", "edits": hist, "seed": env.seed}
+            acc.tick("executions"); acc.tick("transitions", k + 1)
+            first = emu.Sampler(c, st)
+            for attr, val in hist:
+                setattr(first.source, attr, val)
+            first.probability_distribution
+            second = emu.Sampler(c, st)
+            d = {tuple(k_.s): float(v) for k_, v in second.probability_distribution.items()}
+            src = second.source
+            if (src.brightness, src.purity, src.indistinguishability, src.probability_threshold) != (1, 1, 1, 0) \
+                    or set(d) != set(ideal) or any(abs(d[o] - ideal[o]) > 1e-12 for o in ideal):
+                acc.violation("default_source_not_ideal", case, {"distribution": d, "source": [src.brightness, src.purity,
+                                                                                                src.indistinguishability]})
+            acc.state("default_source", hist)
+            if k:
+                acc.nontriv("default_source", hist)
+
+
 def run(tier, seed):
     env = Env(seed)
     gb = kernel.generic_reals(seed + 7, 2, 0.0, 1.0)
@@ -243,7 +270,8 @@ def run(tier, seed):
 
     acc = kernel.pmap(shard_fn, kernel.interleave(jobs, kernel.NPROC * 4))
     extras(env, acc, P + [0.6, 0.75, 0.999], I + [0.25, 0.5])
-    ru = kernel.Acc(); check_refused_updates(env, ru, [g for g in grid if g[3] == 0]); acc.merge(ru)
+    ru = kernel.Acc(); check_refused_updates(env, ru, [g for g in grid if g[3] == 0]); check_default_source(env, ru)
+    acc.merge(ru)
     meta = {
         "rule": "grid brightness x purity x indistinguishability x threshold (both boundaries + seed-chosen generic "
                 "points, more grid points than the polynomial degree for <=3 photons) x inputs (bunched, gaps, vacuum, "
@@ -263,6 +291,9 @@ def run(tier, seed):
 def replay(w, acc):
     case = w["case"]
     env = Env(case.get("seed", 0))
+    if case.get("scenario") == "default_source_after":
+        check_default_source(env, acc)
+        return
     if str(case.get("scenario", "")).startswith(("refused", "source_")):
         check_refused_updates(env, acc, [(case["brightness"], case["purity"], case["indistinguishability"], case["threshold"])])
         return
